@@ -111,20 +111,20 @@ def _lv(text, technique, note=_NET_NOTE):
 LEVEL = {
     "C01": _lv("Verified decider (critical-point enumeration, proved equivalent to the for-all-addresses statement) evaluated on every explored real output; generator-level theorems over the Lean model tied by correspondence.",
                "Lean 4 theorem (decider <-> spec over all addresses) + differential correspondence"),
-    "C02": _lv("Walk of the hardware's table lookup over the emitted netlist decided in Lean for every communicating pair of every explored output; fuel-independence and no-revisit proved.",
+    "C02": _lv("Walk of the hardware's table lookup over the emitted netlist decided in Lean for every communicating pair of every explored output; fuel-independence and no-revisit proved. For the Lean model of the generator and every accepted description: the emitted table of every router decodes every interface's identifier to the port towards the next node of a shortest path (C02T, Bfs), and following these next hops arrives (C02M); model tied to floogen token for token on explored inputs, Hw.lean tied to the RTL by HwTie.",
                "Lean 4 theorems on the netlist walk + verified decider on real outputs"),
-    "C03": _lv("Route words decoded LSB-first over the emitted netlist in Lean for every pair of every explored output; pack/unpack theorem for the encoder model.",
+    "C03": _lv("Route words decoded LSB-first over the emitted netlist in Lean for every pair of every explored output. For the Lean model of the generator: the literal written for a route, consumed hop by hop by the routers (the RTL's consumption block proved equal to Hw.srcPop), hands every router the port that carries its link to the next node of the path, nothing is left over, route_t covers every route (C03M).",
                "Lean 4 theorems (mixed-radix pack/unpack) + verified decider on real outputs"),
     "C04": _lv("Per-port frame condition checked on the emitted netlist; lock-step theorem frame => same walk as ideal grid; evaluated for every pair of every explored XY output.",
                "Lean 4 lock-step simulation theorem + verified decider on real outputs"),
     "C05": _lv("Drivers/readers of every signal and the four neighbours of every router port computed from the emitted netlist by the Lean decider on every explored output.",
                "Lean 4 decider over the emitted netlist + generator theorem on the model"),
-    "C06": _lv("Link set denoted by the description (written from docs/floogen.md in Lean) compared with the emitted port attachments on every explored output.",
+    "C06": _lv("Link set denoted by the description (written from docs/floogen.md in Lean) compared with the emitted port attachments on every explored output. For the Lean model of the generator: its range, index and level selectors return exactly what that specification lists (C18T.*_selection_agrees), its pairing of the two selections is the specification's (C06U.pairing_agrees), and it creates exactly one link per pair (C06C).",
                "Lean 4 specification of the described topology + decider on real outputs"),
     "C07": _lv("Identities, enum names/values, widths decided on every explored output; uniqueness/density theorems over the model.",
                "Lean 4 decider + generator theorems on the model"),
-    "C08": _lv("Top-level ports, element-wise chimney bindings, role enables and AXI cfg records decided on every explored output.",
-               "Lean 4 decider on real outputs"),
+    "C08": _lv("Top-level ports, element-wise chimney bindings, role enables and AXI cfg records decided on every explored output. For the Lean model of the generator: the interface at array position [x][y] owns slot x*n+y of every range and is bound to port element [x][y] with unit dimensions dropped (C08S, C08U).",
+               "Lean 4 decider on real outputs + generator theorems on the model (slot of an array element)"),
     "C09": _lv("Channel-dependency graph of all emitted routes certified acyclic by a rank function checked in Lean (rank => acyclic proved for any graph); negative verdicts carry an explicit cycle.",
                "Lean 4 theorem (rank certificate => acyclic) + certified decider on real outputs"),
     "C11": _lv("Every emitted instance, macro invocation and floo_pkg name checked against facts regenerated from hw/ on every run.",
@@ -145,7 +145,9 @@ LEVEL.update({
                "Lean 4 theorems on the validator/CLI model + fault injection correspondence",
                "Trusted: Lean kernel; fault injector; in-process runner tied to the CLI by sampled subprocess runs and by the "
                "regenerated fact that render_sources renders both texts before opening a file. Classes caught deep in the "
-               "pipeline (selector, count, port conflict, unconnected, missing direction) are decided by correspondence only."),
+               "pipeline have a theorem at the component that stops (C10M: duplicated connection, port taken, array range without "
+               "base, beyond the address width, unconnected endpoint, protocol in both roles); that the error of a component is the "
+               "error of the whole command is the monadic composition of the model. A missing XY direction is decided by correspondence only."),
     "C15": _lv("The model of the command is a pure function of description and mode (history independence, mode projections, "
                "key-order independence proved); hash seeds, working directories and byte identity live in the Python runtime and "
                "are covered by running the real command line under those variations (partial by nature, see DESIGN.md).",
@@ -157,8 +159,9 @@ LEVEL.update({
     "C17": _lv("Proved for every specification over unbounded integers about the Lean model of AddrRange; model compared with "
                "pydantic's AddrRange on every field subset x grid and on random 64-bit values.",
                "Lean 4 proof (case analysis + linear arithmetic) + exhaustive correspondence", _LIB_NOTE),
-    "C18": _lv("Proved for every graph, range list and dimension count about the Lean model of the selectors; compared with "
-               "floogen's Graph selectors exhaustively on arrays/trees of the quantifier.",
+    "C18": _lv("Proved for every graph, range list and dimension count about the Lean model of the selectors, and for the graph the tree "
+               "constructor builds: level L = the product of the index ranges, whatever else the graph holds (C18T); compared with "
+               "floogen's Graph selectors exhaustively on arrays/trees of the quantifier, also through RouterDesc and Network.create_connections.",
                "Lean 4 proof (induction over the range list) + exhaustive correspondence", _LIB_NOTE),
     "C19": _lv("Proved for all burst lengths/counts, tiles, patterns and random draws over the Lean model of gen_mesh_traffic, with "
                "constants, base-address expressions and example ranges regenerated from the sources each run; every job the real "
